@@ -24,7 +24,8 @@ SO = {"threads": 1, "time_limit": 20}
 
 FLOWCLS = W.FD + W.ERR
 KINDS = ["non_string_nodes", "cyclic_for_dag", "no_source", "no_sink", "negative_weight", "missing_weight", "non_conserving", "constraint_absent_edge",
-         "constraint_not_list", "constraint_empty", "constraint_not_tuples", "constraint_edge_as_list", "k_zero_superset", "k_negative_superset", "coverage_zero", "coverage_negative", "coverage_above_one", "coverage_nan", "k_zero", "k_negative",
+         "constraint_not_list", "constraint_empty", "constraint_not_tuples", "constraint_edge_as_list", "k_zero_superset", "k_negative_superset", "coverage_zero", "coverage_negative", "coverage_above_one", "coverage_nan",
+         "coverage_above_one_with_length", "coverage_nan_with_length", "coverage_inf_with_length", "coverage_length_zero", "coverage_length_above_one", "coverage_length_nan", "coverage_length_without_attr", "k_zero", "k_negative",
          "weight_type_str", "weight_type_complex", "weight_type_bool", "weight_type_subclass", "origin_unknown", "unknown_start", "unknown_end", "scale_above_one", "scale_negative", "ignore_malformed",
          "plr_mismatch", "plf_float", "empty_graph"]
 
@@ -42,6 +43,8 @@ def applicable(cls, kind, inst, meta):
         return cls in ("kFlowDecomp", "MinFlowDecomp", "MinFlowDecompCycles") and not node and "elements_to_ignore" not in kw
     if kind == "constraint_empty":
         return True
+    if kind.startswith("coverage_length") or kind.endswith("_with_length"):
+        return not node and not cyc          # (coverage by length exists for the DAG models only)
     if kind.startswith("constraint") or kind.startswith("coverage"):
         return not node
     if kind in ("k_zero_superset", "k_negative_superset"):
@@ -137,7 +140,19 @@ def mutate(kind, cls, inst, meta, rng):
             if not sp["edges"]:
                 return None
             kw[ckey] = [[[sp["edges"][0][0], sp["edges"][0][1]]]]
-        kw[ckey + "_coverage"] = {"coverage_zero": 0, "coverage_negative": -0.5, "coverage_above_one": 1.5, "coverage_nan": float("nan")}[kind]
+        if kind.endswith("_with_length"):
+            # a VALID coverage by length next to an invalid coverage by count
+            kw["subpath_constraints_coverage_length"] = rng.choice([0.5, 1.0, 0.8]); kw["length_attr"] = "len"
+            kw[ckey + "_coverage"] = {"coverage_above_one_with_length": rng.choice([1.5, 7]), "coverage_nan_with_length": float("nan"), "coverage_inf_with_length": float("inf")}[kind]
+        elif kind.startswith("coverage_length"):
+            kw.pop(ckey + "_coverage", None)
+            kw["subpath_constraints_coverage_length"] = {"coverage_length_zero": 0, "coverage_length_above_one": 1.5, "coverage_length_nan": float("nan"), "coverage_length_without_attr": 0.5}[kind]
+            if kind == "coverage_length_without_attr":
+                kw.pop("length_attr", None)
+            else:
+                kw["length_attr"] = "len"
+        else:
+            kw[ckey + "_coverage"] = {"coverage_zero": 0, "coverage_negative": -0.5, "coverage_above_one": 1.5, "coverage_nan": float("nan")}[kind]
     elif kind == "k_zero":
         kw["k"] = 0
     elif kind == "k_negative":
